@@ -114,6 +114,10 @@ def classify(fn: Fn, node: ast.AST, depth=0, seen=None) -> List[Role]:
         if any(a is node for a in p.args) or any(k.value is node for k in p.keywords):
             if fname == "len":
                 return [("WIDTH", None, p)]
+            if isinstance(p.func, ast.Attribute) and p.func.attr in ("format", "join", "format_map") \
+                    and not any(p.func.value is x for x in [node]):
+                # "...{}...".format(text) / sep.join([... text ...]): the text flows into the resulting string
+                return _joined(fn, p, depth, seen)
             if fname in ("str", "list", "tuple", "sorted", "reversed", "iter"):
                 return classify(fn, p, depth + 1, seen)
             if fname == "enumerate":
@@ -347,6 +351,8 @@ def _follow_target(fn, tgt, stmt, depth, seen, element=False) -> List[Role]:
             return []
         return [("STORE", text(tgt), stmt)]
     if isinstance(tgt, ast.Attribute):
+        if tgt.attr == "header":
+            return [("HEADER", text(tgt), stmt)]          # context.header = context.header + text  (same as +=)
         return [("STORE", text(tgt), stmt)]
     return [("UNCLASSIFIED", "assignment target", stmt)]
 
